@@ -6,15 +6,11 @@
 -/
 import CatVerif.Proofs.NoOobHist
 import CatVerif.Proofs.Quiesce
+import CatVerif.Model.Measure
 namespace Cat
 open St
 
 /-! ### how many variables a command can have -/
-
-def Desc.allCmds (D : Desc) : List CmdD := D.groups.flatMap (·.cmds) ++ D.extras
-
-/-- total number of variables of all commands: an upper bound for any single command -/
-def Desc.vars (D : Desc) : Nat := (D.allCmds.map (·.varNum)).sum
 
 theorem le_sum_of_mem (l : List Nat) (x : Nat) (h : x ∈ l) : x ≤ l.sum := by
   induction l with
@@ -54,73 +50,6 @@ theorem varNum_le (D : Desc) (id : Option Nat) : (D.cmdD id).varNum ≤ D.vars :
       split at h
       · exact List.mem_append_left _ (cmdByIndex_mem _ _ _ h)
       · exact List.mem_append_right _ (List.mem_of_getElem? h)
-
-/-! ### the constants of the measure (command machine) -/
-
-/-- budget of one flush from a region of capacity `K`, the wait included -/
-def FL (K : Nat) : Nat := 4 * K + 16
-
-/-- steps left in a flush: phases still to come, and bytes left in the current phase (bounded) -/
-def stepsLeft (K ws : Nat) (src : WSrc) (pos : Nat) : Nat :=
-  (3 - ws) * (K + 4) + (match src with | .nl off => 3 - (off + pos) | .main => K - pos)
-
-namespace Desc
-def ACKF (D : Desc) : Nat := FL D.cmdCap + 1
-def FLOK (D : Desc) : Nat := FL D.cmdCap + 2 + D.ACKF
-def FLR (D : Desc) : Nat := FL D.cmdCap + 1
-def PER (D : Desc) : Nat := 6 * (D.FLR + 1)
-def LISTALL (D : Desc) : Nat := D.commandsNum * D.PER + D.ACKF + 2
-def RL (D : Desc) : Nat := 1 + D.FLOK + D.ACKF
-def TL (D : Desc) : Nat := 1 + D.FLOK + D.ACKF + D.LISTALL
-def FMR (D : Desc) : Nat := D.vars + 2 + D.ACKF + D.RL + D.FLOK
-def FMT (D : Desc) : Nat := D.vars + 2 + D.ACKF + D.TL + D.FLOK
-def WL (D : Desc) : Nat := 1 + D.ACKF
-def PW (D : Desc) : Nat := D.vars + 2 + D.ACKF + D.WL
-def RUN (D : Desc) : Nat := 1 + D.ACKF + D.LISTALL
-def FOUND (D : Desc) : Nat := 1 + D.ACKF + D.RUN + D.FMR
-def SEARCH0 (D : Desc) : Nat := D.commandsNum + 2 + D.FOUND + D.ACKF
-end Desc
-
-def CmdType.stage : CmdType → Nat
-  | .none => 0 | .run => 1 | .read => 2 | .write => 3 | .test => 4 | .total => 5
-
-/-- what is left of the command list from the current command and request form -/
-def listLeft (D : Desc) (index : Nat) (t : CmdType) : Nat :=
-  (D.commandsNum - index - 1) * D.PER + (6 - t.stage) * (D.FLR + 1) + D.ACKF + 1
-
-/-- measure of the state the command machine continues in after the flush -/
-def aftOf (D : Desc) (a : After) (index : Nat) (t : CmdType) : Nat :=
-  match a with
-  | .reset => 1
-  | .ok => 1 + D.ACKF
-  | .fmtRead => 1 + D.FMR
-  | .fmtTest => 1 + D.FMT
-  | .printCmd => listLeft D index t
-
-def aftC (D : Desc) (s : St) : Nat := aftOf D s.writeStateAfter s.index s.cmdType
-
-/-- **the measure of the command machine** -/
-def muC (D : Desc) (s : St) : Nat :=
-  match s.state with
-  | .error | .idle | .parsePrefix | .parseCommandChar | .waitReadAck | .waitTestAck | .parseCommandArgs | .hold => 0
-  | .updateCommandState => (D.commandsNum - s.index) + 1 + D.SEARCH0
-  | .searchCommand => (D.commandsNum - s.index) + 2 + D.FOUND + D.ACKF
-  | .commandFound => D.FOUND
-  | .commandNotFound => 1 + D.ACKF
-  | .parseWriteArgs => (D.vars - s.index) + 1 + D.ACKF + D.WL
-  | .formatReadArgs => (D.vars - s.index) + 1 + D.ACKF + D.RL + D.FLOK
-  | .formatTestArgs => (D.vars - s.index) + 1 + D.ACKF + D.TL + D.FLOK
-  | .writeLoop => D.WL
-  | .readLoop => D.RL
-  | .testLoop => D.TL
-  | .runLoop => D.RUN
-  | .flushWait => 1 + stepsLeft D.cmdCap s.writeState s.writeSrc s.position + aftC D s
-  | .flushWrite => stepsLeft D.cmdCap s.writeState s.writeSrc s.position + aftC D s
-  | .afterFlushReset => 1
-  | .afterFlushOk => 1 + D.ACKF
-  | .afterFlushFormatRead => 1 + D.FMR
-  | .afterFlushFormatTest => 1 + D.FMT
-  | .printCmd => listLeft D s.index s.cmdType
 
 /-! ### leaves -/
 
@@ -819,5 +748,731 @@ theorem commandService_dec (D : Desc) (s : St) (i : SvcIn) (hrd : i.rd = none) (
   · exact Or.inr (af.2.2.1 hst)
   · exact Or.inr (af.2.2.2 hst)
   · exact Or.inr (printCmdList_dec D s hst (u.idx (Or.inr (Or.inr (Or.inl hst)))))
+
+/-! ### without nested API calls the command machine leaves the event queue alone -/
+
+/-- the number of queued events is `n` -/
+def RC (n : Nat) (s : St) : Prop := s.rcount = n
+
+theorem RC.congr {n : Nat} {s s' : St} (h : RC n s) (hr : SameR s s') : RC n s' := by
+  unfold RC at *; rw [hr.2.2.2]; exact h
+
+theorem applyNested_rc (D : Desc) (f : Fsm) (e : Bool) (acts : List Nested) (n : Nat) (ha : noApi acts = true) :
+    ∀ s : St, RC n s → RC n (applyNested D f e s acts) := by
+  induction acts with
+  | nil => intro s h; exact h
+  | cons a r ih =>
+    intro s h
+    cases a with
+    | trigger c t => simp [noApi] at ha
+    | holdExit st => simp [noApi] at ha
+    | poke slot off bs =>
+      simp only [applyNested]
+      split <;> exact ih (by simpa [noApi] using ha) _ (h.congr (by simp))
+    | edit bs =>
+      simp only [applyNested]
+      split <;> exact ih (by simpa [noApi] using ha) _ (h.congr (by simp))
+
+theorem varWriteCb_rc (D : Desc) (s : St) (v : VarD) (i : SvcIn) (n : Nat) (hv : noApi i.vc.acts = true) (h : RC n s) :
+    RC n (varWriteCb D s v i).1 := by
+  unfold varWriteCb
+  split
+  · exact applyNested_rc D .cmd false _ n hv _ (h.congr (by simp))
+  · exact h
+
+theorem varReadCb_rc (D : Desc) (s : St) (f : Fsm) (v : VarD) (i : SvcIn) (n : Nat)
+    (hv : noApi (match f with | .cmd => i.vc | .uns => i.vu).acts = true) (h : RC n s) : RC n (varReadCb D s f v i).1 := by
+  unfold varReadCb
+  simp only
+  split
+  · exact applyNested_rc D f false _ n hv _ (h.congr (by simp))
+  · exact h
+
+theorem commandService_rc (D : Desc) (s : St) (i : SvcIn) (n : Nat) (ha : noApi i.hc.acts = true) (hv : noApi i.vc.acts = true) (hi : RC n s) :
+    RC n (commandService D s i).1 := by
+  unfold commandService
+  split
+  · exact hi.congr (by simp [errorState]; rr)
+  · exact hi.congr (by simp [processIdleState]; rr)
+  · exact hi.congr (by simp [parsePrefix, prepareParseCommand]; rr)
+  · exact hi.congr (by simp [parseCommand, prepareSearchCommand]; rr)
+  · exact hi.congr (by simp [updateCommand, updateAdvance, updateLane, prepareSearchCommand]; rr)
+  · exact hi.congr (by simp [waitReadAcknowledge, prepareSearchCommand]; rr)
+  · exact hi.congr (by simp [searchCommand, notFoundOrError]; rr)
+  · exact hi.congr (by simp [commandFound]; rr)
+  · exact hi.congr (by simp [commandNotFound])
+  · exact hi.congr (by simp [parseCommandArgs]; rr)
+  · -- parse_write_args: the variable callback may trigger events
+    simp only [parseWriteArgs]
+    generalize hs0 : (s.chkUb s.cmd.isSome).chkUb _ = s0
+    have h0 : RC n s0 := hi.congr (by subst hs0; simp)
+    generalize hvv : (D.cmdD (s.chkUb s.cmd.isSome).cmd).varAt _ = v
+    have h1 : RC n (parseVarValue D s0 v).1 := h0.congr (by simp)
+    split
+    · exact h1.congr (by simp)
+    · have h2 := varWriteCb_rc D (parseVarValue D s0 v).1 v i n hv h1
+      split
+      · exact h2.congr (by simp)
+      · (repeat' split) <;> exact h2.congr (by simp)
+  · simp only [formatReadArgs]
+    generalize hs0 : (s.chkUb (s.cmdOf .cmd).isSome).chkUb _ = s0
+    have h0 : RC n s0 := hi.congr (by subst hs0; simp)
+    generalize hvv : (D.cmdD ((s.chkUb (s.cmdOf Fsm.cmd).isSome).cmdOf Fsm.cmd)).varAt _ = v
+    have h1 := varReadCb_rc D s0 .cmd v i n (by simpa using hv) h0
+    split
+    · exact h1.congr (by simp)
+    · have h2 : RC n (formatVar D (varReadCb D s0 .cmd v i).1 .cmd v).1 := h1.congr (by simp)
+      split
+      · exact h2.congr (by simp)
+      · have h3 : RC n (nextFormatVar D (formatVar D (varReadCb D s0 .cmd v i).1 .cmd v).1 .cmd).1 := h2.congr (by simp)
+        (repeat' split) <;> first | exact h3 | exact h3.congr (by simp)
+  · exact hi.congr (by simp [waitTestAcknowledge]; rr)
+  · exact hi.congr (by simp [formatTestArgs]; rr)
+  · simp only [processWriteLoop]
+    exact (applyNested_rc D _ _ _ n ha _ (hi.congr (by simp))).congr (doCalls_R D _ _ _)
+  · simp only [processReadLoop]
+    exact (applyNested_rc D _ _ _ n ha _ (hi.congr (by simp))).congr (doCalls_R D _ _ _)
+  · simp only [processTestLoop]
+    exact (applyNested_rc D _ _ _ n ha _ (hi.congr (by simp))).congr (doCalls_R D _ _ _)
+  · simp only [processRunLoop]
+    exact (applyNested_rc D _ _ _ n ha _ (hi.congr (by simp))).congr (doCalls_R D _ _ _)
+  · exact hi.congr (by simp [processHoldState]; rr)
+  · exact hi.congr (by simp [processIoWriteWait]; rr)
+  · exact hi.congr (by simp [processIoWrite]; rr)
+  · exact hi.congr (by simp [resetState]; rr)
+  · exact hi.congr (by simp)
+  · exact hi.congr (by simp)
+  · exact hi.congr (by simp)
+  · exact hi.congr (by simp [printCmdList, printCmdForm]; rr)
+
+
+
+/-! ### the measure of the unsolicited machine -/
+
+theorem locU_startFlush (D : Desc) (t : St) (a : After) :
+    locU D (startFlush t .uns a) ≤ FL D.unsCap + aftU D a := by
+  have := nlOff_le t
+  simp only [locU, startFlush, St.emit, stepsLeft, FL]
+  omega
+
+theorem locU_reset (D : Desc) (t : St) : locU D (unsolicitedResetState t) = 0 := by
+  simp [locU, unsolicitedResetState]
+
+theorem locU_startFormatRead (D : Desc) (t : St) : locU D (startFormatRead D t .uns) + 1 ≤ D.FMU := by
+  unfold startFormatRead
+  simp only
+  generalize (t.setPos .uns 0).chkUb _ = s0
+  generalize D.cmdD (s0.cmdOf .uns) = c
+  generalize printAll D s0 .uns [c.name, [61]] = r
+  obtain ⟨s1, ok⟩ := r
+  cases ok
+  · simp only [Bool.not_false, if_true, endError, locU_reset]
+    unfold Desc.FMU; omega
+  · simp only [Bool.not_true, Bool.false_eq_true, if_false]
+    split
+    · simp only [locU]; unfold Desc.FMU; omega
+    · split
+      · simp only [endError, locU_reset]; unfold Desc.FMU; omega
+      · simp only [setStateRL, locU]; unfold Desc.FMU; omega
+
+theorem locU_printResponseTest (D : Desc) (t : St) (h : (printResponseTest D t .uns).2 = true) :
+    locU D (printResponseTest D t .uns).1 ≤ D.RLU + D.FLOKU := by
+  unfold printResponseTest at h ⊢
+  simp only at h ⊢
+  generalize t.chkUb _ = s0 at h ⊢
+  generalize D.cmdD (s0.cmdOf .uns) = c at h ⊢
+  have fl : ∀ x : St, locU D (startFlush x .uns .ok) ≤ D.FLOKU := by
+    intro x; have := locU_startFlush D x .ok; simp only [aftU] at this; unfold Desc.FLOKU; omega
+  cases hd : c.desc with
+  | none =>
+    simp only [hd, Bool.not_true, Bool.false_eq_true, if_false] at h ⊢
+    split
+    · simp only [setStateTL, locU]; omega
+    · have := fl s0; dsimp only; omega
+  | some d =>
+    simp only [hd] at h ⊢
+    generalize printAll D s0 .uns [nlStr s0, d] = r at h ⊢
+    obtain ⟨s1, ok⟩ := r
+    cases ok
+    · simp at h
+    · simp only [Bool.not_true, Bool.false_eq_true, if_false] at h ⊢
+      split
+      · simp only [setStateTL, locU]; omega
+      · have := fl s1; dsimp only; omega
+
+theorem locU_startFormatTest (D : Desc) (t : St) : locU D (startFormatTest D t .uns) + 1 ≤ D.FMU := by
+  unfold startFormatTest
+  simp only
+  generalize (t.setPos .uns 0).chkUb _ = s0
+  generalize D.cmdD (s0.cmdOf .uns) = c
+  generalize printAll D s0 .uns [c.name, [61]] = r
+  obtain ⟨s1, ok⟩ := r
+  cases ok
+  · simp only [Bool.not_false, if_true, endError, locU_reset]
+    unfold Desc.FMU; omega
+  · simp only [Bool.not_true, Bool.false_eq_true, if_false]
+    split
+    · simp only [locU]; unfold Desc.FMU; omega
+    · have pr := locU_printResponseTest D s1
+      generalize printResponseTest D s1 .uns = r2 at pr
+      obtain ⟨s2, ok2⟩ := r2
+      cases ok2
+      · simp only [Bool.false_eq_true, if_false, endError, locU_reset]
+        unfold Desc.FMU; omega
+      · have := pr rfl
+        simp only [if_true]
+        dsimp only at this
+        unfold Desc.FMU; omega
+
+/-! ### one step of the unsolicited machine -/
+
+theorem locU_after (D : Desc) (t : St) (a : After) (h : t.ustate = a.toU) : locU D t = aftU D a := by
+  cases a <;> simp [After.toU] at h <;> simp [locU, h, aftU]
+
+theorem unsolicitedProcessIoWrite_dec (D : Desc) (s : St) (i : SvcIn) (hs : s.ustate = .flushWrite) (hw : i.wr = true)
+    (o : OobF D s .uns) : locU D (unsolicitedProcessIoWrite D s i).1 < locU D s := by
+  have hph : s.ph .uns = .flush := by simp [St.ph, hs, UState.ph]
+  have omain := o.main hph
+  have onl := o.nl hph
+  have owsle := o.wsle hph
+  simp only [St.wsrc, St.pos, St.wst] at omain onl owsle
+  have hmu : locU D s = stepsLeft D.unsCap s.uwriteState s.uwriteSrc s.uposition + aftU D s.uwriteStateAfter := by simp [locU, hs]
+  rw [hmu]
+  unfold unsolicitedProcessIoWrite writeByte
+  simp only [hw, Bool.not_true, Bool.false_eq_true, if_false]
+  have nlo := nlOff_le s
+  cases hsrc : s.uwriteSrc with
+  | nl off =>
+    have hb := onl off hsrc
+    simp only [hb, decide_true, chk_true]
+    split
+    · rcases ws_cases owsle with h | h | h
+      · simp [h, locU, hs, stepsLeft]; omega
+      · simp [h, locU, hs, stepsLeft]; omega
+      · simp only [h, beq_self_eq_true, if_true, show (2 : Nat) ≠ 0 by decide, show (2 : Nat) ≠ 1 by decide,
+          show ((2 : Nat) == 0) = false by decide, show ((2 : Nat) == 1) = false by decide, Bool.false_eq_true, if_false]
+        rw [locU_after D _ s.uwriteStateAfter (by simp [St.emit])]
+        simp [St.emit, stepsLeft]; omega
+    · rename_i hne
+      have hne' : ([13, 10, 0] : List Byte).getD (off + s.uposition) 0 ≠ 0 := by simpa using hne
+      have h1 := nl_get_ne off s.uposition hne'
+      simp [locU, hs, St.emit, stepsLeft, hsrc]; omega
+  | main =>
+    have hn := omain hsrc
+    have hlt : s.uposition < D.unsCap := hn.lt
+    simp only [show s.uposition < D.capOf .uns from hlt, decide_true, chk_true]
+    split
+    · rcases ws_cases owsle with h | h | h
+      · simp [h, locU, hs, stepsLeft]; omega
+      · simp [h, locU, hs, stepsLeft]; omega
+      · simp only [h, show ((2 : Nat) == 0) = false by decide, show ((2 : Nat) == 1) = false by decide, Bool.false_eq_true, if_false,
+          beq_self_eq_true, if_true]
+        rw [locU_after D _ s.uwriteStateAfter (by simp [St.emit])]
+        simp [St.emit, stepsLeft]; omega
+    · simp [locU, hs, St.emit, stepsLeft, hsrc]; omega
+
+
+theorem unsolicitedProcessIoWriteWait_dec (D : Desc) (s : St) (hs : s.ustate = .flushWait) (hc : s.state ≠ .flushWrite) :
+    locU D (unsolicitedProcessIoWriteWait s).1 < locU D s := by
+  simp [unsolicitedProcessIoWriteWait, hc, locU, hs]
+
+theorem tablesU_mu (D : Desc) (t : St) (ret : Int) (hf : Final ret) :
+    locU D (doCalls D .uns t (Gen.process_read_loop ret .uns)) ≤ D.FLOKU ∧
+    locU D (doCalls D .uns t (Gen.process_test_loop ret .uns)) ≤ D.FLOKU := by
+  obtain ⟨h1, h2, h4⟩ := hf
+  have a3 : locU D (doCalls D .uns t [.endOk]) ≤ D.FLOKU := by
+    show locU D (unsolicitedResetState t) ≤ _; rw [locU_reset]; exact Nat.zero_le _
+  have a4 : locU D (doCalls D .uns t [.endError]) ≤ D.FLOKU := by
+    show locU D (unsolicitedResetState t) ≤ _; rw [locU_reset]; exact Nat.zero_le _
+  have a5 : locU D (doCalls D .uns t [.holdExit true, .endOk]) ≤ D.FLOKU := by
+    show locU D (unsolicitedResetState _) ≤ _; rw [locU_reset]; exact Nat.zero_le _
+  have a6 : locU D (doCalls D .uns t [.holdExit false, .endError]) ≤ D.FLOKU := by
+    show locU D (unsolicitedResetState _) ≤ _; rw [locU_reset]; exact Nat.zero_le _
+  have a7 : locU D (doCalls D .uns t [.startFlush .ok]) ≤ D.FLOKU := by
+    have := locU_startFlush D t .ok; simp only [aftU] at this
+    show locU D (startFlush t .uns .ok) ≤ D.FLOKU
+    unfold Desc.FLOKU; omega
+  have hR : ∀ l : List Call, l ∈ [[Call.startFlush .ok], [Call.endOk], [Call.holdExit true, Call.endOk], [Call.holdExit false, Call.endError], [Call.endError]] →
+      locU D (doCalls D .uns t l) ≤ D.FLOKU := by
+    intro l hl
+    simp only [List.mem_cons, List.mem_nil_iff, or_false] at hl
+    rcases hl with rfl | rfl | rfl | rfl | rfl
+    · exact a7
+    · exact a3
+    · exact a5
+    · exact a6
+    · exact a4
+  constructor
+  · unfold Gen.process_read_loop
+    (repeat' split) <;> first | (exfalso; omega) | exact hR _ (by decide) | (rename_i hq; exact absurd hq (by decide))
+  · unfold Gen.process_test_loop
+    (repeat' split) <;> first | (exfalso; omega) | exact hR _ (by decide) | (rename_i hq; exact absurd hq (by decide))
+
+theorem loopsU_dec (D : Desc) (s : St) (i : SvcIn) (hf : Final i.hu.ret) :
+    (s.ustate = .readLoop → locU D (processReadLoop D s .uns i).1 < locU D s) ∧
+    (s.ustate = .testLoop → locU D (processTestLoop D s .uns i).1 < locU D s) := by
+  refine ⟨fun hs => ?_, fun hs => ?_⟩
+  · have hm : locU D s = D.RLU := by simp [locU, hs]
+    rw [hm]; unfold processReadLoop; simp only
+    generalize applyNested D .uns true _ _ = t
+    have := (tablesU_mu D t i.hu.ret hf).1
+    unfold Desc.RLU; omega
+  · have hm : locU D s = D.RLU := by simp [locU, hs]
+    rw [hm]; unfold processTestLoop; simp only
+    generalize applyNested D .uns true _ _ = t
+    have := (tablesU_mu D t i.hu.ret hf).2
+    unfold Desc.RLU; omega
+
+theorem afterFlushU_dec (D : Desc) (s : St) :
+    (s.ustate = .afterFlushReset → locU D (unsolicitedResetState s) < locU D s) ∧
+    (s.ustate = .afterFlushOk → locU D (endOk D s .uns) < locU D s) ∧
+    (s.ustate = .afterFlushFormatRead → locU D (startFormatRead D s .uns) < locU D s) ∧
+    (s.ustate = .afterFlushFormatTest → locU D (startFormatTest D s .uns) < locU D s) := by
+  refine ⟨fun hs => ?_, fun hs => ?_, fun hs => ?_, fun hs => ?_⟩
+  · rw [locU_reset]; simp [locU, hs]
+  · simp only [endOk]; rw [locU_reset]; simp [locU, hs]
+  · have := locU_startFormatRead D s
+    have hm : locU D s = 1 + D.FMU := by simp [locU, hs]
+    omega
+  · have := locU_startFormatTest D s
+    have hm : locU D s = 1 + D.FMU := by simp [locU, hs]
+    omega
+
+theorem nextFormatVarU_mu (D : Desc) (t : St) :
+    ((nextFormatVar D t .uns).2 = true →
+      locU D (nextFormatVar D t .uns).1 = 0 ∨
+      ((nextFormatVar D t .uns).1.ustate = t.ustate ∧ (nextFormatVar D t .uns).1.uindex = t.uindex + 1 ∧
+        t.uindex + 1 < (D.cmdD t.ucmd).varNum)) ∧
+    ((nextFormatVar D t .uns).2 = false → (nextFormatVar D t .uns).1 = t.setIdx .uns (t.uindex + 1)) := by
+  unfold nextFormatVar
+  simp only [St.cmdOf, St.idx]
+  by_cases hlt : (t.setIdx .uns (t.uindex + 1)).uindex < (D.cmdD t.ucmd).varNum
+  · simp only [hlt, if_true]
+    by_cases hp : (t.setIdx .uns (t.uindex + 1)).pos .uns ≥ D.capOf .uns
+    · simp only [hp, if_true]
+      exact ⟨fun _ => Or.inl (by simp only [endError]; exact locU_reset D _), fun h => Bool.noConfusion h⟩
+    · simp only [hp, if_false]
+      refine ⟨fun _ => Or.inr ⟨?_, ?_, ?_⟩, fun h => Bool.noConfusion h⟩
+      · simp [St.setPos, St.setIdx]
+      · simp [St.setPos, St.setIdx]
+      · simpa [St.setIdx] using hlt
+  · simp only [hlt, if_false]
+    exact ⟨fun h => Bool.noConfusion h, fun _ => trivial⟩
+
+theorem formatReadArgsU_dec (D : Desc) (s : St) (i : SvcIn) (hs : s.ustate = .formatReadArgs) :
+    locU D (formatReadArgs D s .uns i).1 < locU D s := by
+  have hm : locU D s = (D.vars - s.uindex) + 1 + D.RLU + D.FLOKU := by simp [locU, hs]
+  rw [hm]
+  unfold formatReadArgs
+  simp only
+  generalize hs0 : (s.chkUb (s.cmdOf .uns).isSome).chkUb _ = s0
+  have c0 : Calm s s0 := by rw [← hs0]; exact (Calm.chkUb s _).trans (Calm.chkUb _ _)
+  generalize D.cmdD ((s.chkUb (s.cmdOf .uns).isSome).cmdOf .uns) = c
+  generalize c.varAt (s0.idx .uns) = v
+  have cb := varReadCb_uns_keep D s0 v i
+  generalize varReadCb D s0 .uns v i = r1 at cb
+  obtain ⟨s1, fail⟩ := r1
+  simp only at cb
+  cases fail
+  · simp only [Bool.false_eq_true, if_false]
+    have fc := formatVar_uns_keep D s1 v
+    generalize formatVar D s1 .uns v = r2 at fc
+    obtain ⟨s2, ok⟩ := r2
+    simp only at fc
+    cases ok
+    · simp only [Bool.not_false, if_true, endError, locU_reset]; omega
+    · simp only [Bool.not_true, Bool.false_eq_true, if_false]
+      have hst2 : s2.ustate = .formatReadArgs := by rw [fc.1, cb.1, c0.u.1]; exact hs
+      have hix2 : s2.uindex = s.uindex := by rw [fc.2.2.1, cb.2.2.1, c0.u.2.1]
+      have hvl := varNum_le D s2.ucmd
+      have nx := nextFormatVarU_mu D s2
+      generalize nextFormatVar D s2 .uns = r3 at nx
+      obtain ⟨s3, more⟩ := r3
+      simp only at nx
+      cases more
+      · simp only [Bool.false_eq_true, if_false]
+        have e3 := nx.2 rfl
+        split
+        · rw [e3]; simp only [setStateRL, St.setIdx, locU]; omega
+        · have := locU_startFlush D s3 .ok
+          simp only [aftU] at this
+          dsimp only
+          unfold Desc.FLOKU; omega
+      · simp only [if_true]
+        rcases nx.1 rfl with h | ⟨h1, h2, h3⟩
+        · omega
+        · simp only [locU, h1, hst2, h2, hix2]
+          rw [hix2] at h3
+          omega
+  · simp only [if_true, endError, locU_reset]; omega
+
+theorem formatTestArgsU_dec (D : Desc) (s : St) (hs : s.ustate = .formatTestArgs) :
+    locU D (formatTestArgs D s .uns).1 < locU D s := by
+  have hm : locU D s = (D.vars - s.uindex) + 1 + D.RLU + D.FLOKU := by simp [locU, hs]
+  rw [hm]
+  unfold formatTestArgs
+  simp only
+  generalize hs0 : (s.chkUb (s.cmdOf .uns).isSome).chkUb _ = s0
+  have c0 : Calm s s0 := by rw [← hs0]; exact (Calm.chkUb s _).trans (Calm.chkUb _ _)
+  generalize D.cmdD ((s.chkUb (s.cmdOf .uns).isSome).cmdOf .uns) = c
+  generalize c.varAt (s0.idx .uns) = v
+  have fc := formatInfoType_uns_keep D s0 v
+  generalize formatInfoType D s0 .uns v = r1 at fc
+  obtain ⟨s1, ok⟩ := r1
+  simp only at fc
+  cases ok
+  · simp only [Bool.not_false, if_true, endError, locU_reset]; omega
+  · simp only [Bool.not_true, Bool.false_eq_true, if_false]
+    have hst1 : s1.ustate = .formatTestArgs := by rw [fc.1, c0.u.1]; exact hs
+    have hix1 : s1.uindex = s.uindex := by rw [fc.2.2.1, c0.u.2.1]
+    have hvl := varNum_le D s1.ucmd
+    have nx := nextFormatVarU_mu D s1
+    generalize nextFormatVar D s1 .uns = r2 at nx
+    obtain ⟨s2, more⟩ := r2
+    simp only at nx
+    cases more
+    · simp only [Bool.false_eq_true, if_false]
+      have pr := locU_printResponseTest D s2
+      generalize printResponseTest D s2 .uns = r3 at pr
+      obtain ⟨s3, ok3⟩ := r3
+      cases ok3
+      · simp only [Bool.false_eq_true, if_false, endError, locU_reset]; omega
+      · have := pr rfl
+        simp only [if_true]
+        dsimp only at this
+        omega
+    · simp only [if_true]
+      rcases nx.1 rfl with h | ⟨h1, h2, h3⟩
+      · omega
+      · simp only [locU, h1, hst1, h2, hix1]
+        rw [hix1] at h3
+        omega
+
+theorem unsolicitedEventsService_rc (D : Desc) (s : St) (i : SvcIn) (n : Nat) (ha : noApi i.hu.acts = true) (hv : noApi i.vu.acts = true)
+    (hne : s.ustate ≠ .idle) (hi : RC n s) : RC n (unsolicitedEventsService D s i).1 := by
+  unfold unsolicitedEventsService
+  split
+  · rename_i hs; exact absurd hs hne
+  · simp only [formatReadArgs]
+    generalize hs0 : (s.chkUb (s.cmdOf .uns).isSome).chkUb _ = s0
+    have h0 : RC n s0 := hi.congr (by subst hs0; simp)
+    generalize hvv : (D.cmdD ((s.chkUb (s.cmdOf Fsm.uns).isSome).cmdOf Fsm.uns)).varAt _ = v
+    have h1 := varReadCb_rc D s0 .uns v i n (by simpa using hv) h0
+    split
+    · exact h1.congr (by simp)
+    · have h2 : RC n (formatVar D (varReadCb D s0 .uns v i).1 .uns v).1 := h1.congr (by simp)
+      split
+      · exact h2.congr (by simp)
+      · have h3 : RC n (nextFormatVar D (formatVar D (varReadCb D s0 .uns v i).1 .uns v).1 .uns).1 := h2.congr (by simp)
+        (repeat' split) <;> first | exact h3 | exact h3.congr (by simp)
+  · exact hi.congr (by simp [formatTestArgs]; rr)
+  · simp only [processReadLoop]
+    exact (applyNested_rc D _ _ _ n ha _ (hi.congr (by simp))).congr (doCalls_R D _ _ _)
+  · simp only [processTestLoop]
+    exact (applyNested_rc D _ _ _ n ha _ (hi.congr (by simp))).congr (doCalls_R D _ _ _)
+  · exact hi.congr (by simp [unsolicitedProcessIoWriteWait]; rr)
+  · exact hi.congr (by simp [unsolicitedProcessIoWrite]; rr)
+  · exact hi.congr (by simp [unsolicitedResetState])
+  · exact hi.congr (by simp)
+  · exact hi.congr (by simp)
+  · exact hi.congr (by simp)
+
+
+/-- the fields the unsolicited machine's measure reads -/
+theorem locU_congr (D : Desc) {s s' : St} (hu : SameU' s s') (hp : s'.uposition = s.uposition) : locU D s' = locU D s := by
+  simp only [SameU'] at hu
+  obtain ⟨a1, a2, a3, a4, a5, a6, a7⟩ := hu
+  simp only [locU, a1, a2, a5, a6, a7, hp]
+
+theorem muC_congr (D : Desc) {s s' : St} (hc : SameC' s s') (hp : s'.position = s.position) : muC D s' = muC D s := by
+  simp only [SameC'] at hc
+  obtain ⟨a1, a2, a3, a4, a5, a6, a7, a8, a9, a10, a11, a12, a13⟩ := hc
+  simp only [muC, aftC, a1, a6, a8, a10, a11, a12, hp]
+
+/-- **One step of the unsolicited machine** with an accepting output and final answers: with nothing
+queued and nothing in progress it does nothing; a unit ready to be sent while the command machine is
+sending waits; every other step decreases the measure. -/
+theorem unsolicitedEventsService_dec (D : Desc) (s : St) (i : SvcIn) (hwr : i.wr = true) (hf : Final i.hu.ret)
+    (ha : noApi i.hu.acts = true) (hv : noApi i.vu.acts = true) (o : OobF D s .uns) (ri : RingInv D s) :
+    ((s.ustate = .idle ∧ s.rcount = 0) → (unsolicitedEventsService D s i).1 = s) ∧
+    (¬ (s.ustate = .idle ∧ s.rcount = 0) →
+      (s.ustate = .flushWait ∧ s.state = .flushWrite ∧ (unsolicitedEventsService D s i).1 = s) ∨
+      muU D (unsolicitedEventsService D s i).1 < muU D s) := by
+  constructor
+  · intro ⟨h1, h2⟩
+    simp [unsolicitedEventsService, h1, checkUnsolicitedBuffers, Gen.is_unsolicited_buffer_empty, h2]
+  · intro hq
+    by_cases hid : s.ustate = .idle
+    · -- an event is taken from the queue
+      right
+      have hpos : 0 < s.rcount := by
+        cases h0 : s.rcount with
+        | zero => exact absurd ⟨hid, h0⟩ hq
+        | succ k => omega
+      have hne : Gen.is_unsolicited_buffer_empty (s.rcount : Int) = false := by
+        simp [Gen.is_unsolicited_buffer_empty]; omega
+      have hm : muU D s = s.rcount * D.EV := by simp [muU, locU, hid]
+      rw [hm]
+      simp only [unsolicitedEventsService, hid, checkUnsolicitedBuffers, hne, Bool.false_eq_true, if_false]
+      generalize hs1 : (({ ringPop D s with ucmd := some (ringFront s).1, ucmdType := (ringFront s).2 } : St).emit (.pop (ringFront s).1 (ringFront s).2)) = s1
+      have hrc : s1.rcount = s.rcount - 1 := by
+        rw [← hs1]; simp [St.emit, ringPop]
+      have hus : s1.ustate = .idle := by
+        rw [← hs1]; simp only [St.emit, ringPop]; rw [(chk_ctl s _).1.2.1.1]; exact hid
+      have key : ∀ t : St, t.rcount = s1.rcount → locU D t + 1 ≤ D.FMU → muU D t < s.rcount * D.EV := by
+        intro t h1 h2
+        obtain ⟨k, hk⟩ : ∃ k, s.rcount = k + 1 := ⟨s.rcount - 1, by omega⟩
+        simp only [muU, h1, hrc, hk, Nat.add_sub_cancel, Nat.succ_mul]
+        unfold Desc.EV; omega
+      have rcf : ∀ t : St, SameR s1 t → t.rcount = s1.rcount := fun t h => h.2.2.2
+      split
+      · exact key _ (rcf _ (by simp)) (locU_startFormatRead D s1)
+      · split
+        · exact key _ (rcf _ (by simp)) (locU_startFormatTest D s1)
+        · exact key _ rfl (by simp [locU, hus]; unfold Desc.FMU; omega)
+    · -- an event is in progress: the queue is not touched, the local measure decreases
+      have rc := unsolicitedEventsService_rc D s i s.rcount ha hv hid rfl
+      have lift : locU D (unsolicitedEventsService D s i).1 < locU D s → muU D (unsolicitedEventsService D s i).1 < muU D s := by
+        intro h
+        unfold RC at rc
+        simp only [muU, rc]; omega
+      have ld := loopsU_dec D s i hf
+      have af := afterFlushU_dec D s
+      unfold unsolicitedEventsService at lift ⊢
+      split at lift <;> rename_i hst <;> simp only [hst] at lift ⊢
+      · exact absurd hst hid
+      · exact Or.inr (lift (formatReadArgsU_dec D s i hst))
+      · exact Or.inr (lift (formatTestArgsU_dec D s hst))
+      · exact Or.inr (lift (ld.1 hst))
+      · exact Or.inr (lift (ld.2 hst))
+      · by_cases hc : s.state = .flushWrite
+        · exact Or.inl ⟨trivial, hc, by simp [unsolicitedProcessIoWriteWait, hc]⟩
+        · exact Or.inr (lift (unsolicitedProcessIoWriteWait_dec D s hst hc))
+      · exact Or.inr (lift (unsolicitedProcessIoWrite_dec D s i hst hwr o))
+      · exact Or.inr (lift (af.1 hst))
+      · exact Or.inr (lift (af.2.1 hst))
+      · exact Or.inr (lift (af.2.2.1 hst))
+      · exact Or.inr (lift (af.2.2.2 hst))
+
+/-! ### `cat_service` as a whole -/
+
+/-- the environment of a call in which the library is left to finish its work: no input byte, the
+output accepts, the mutex calls succeed, handlers give final answers (not NEXT / DATA_NEXT / HOLD)
+and make no API calls of their own -/
+structure TermIn (i : SvcIn) : Prop where
+  rd : i.rd = none
+  wr : i.wr = true
+  lk : i.lock = 0
+  ul : i.unlock = 0
+  hc : Final i.hc.ret
+  hu : Final i.hu.ret
+  ahc : noApi i.hc.acts = true
+  ahu : noApi i.hu.acts = true
+  avc : noApi i.vc.acts = true
+  avu : noApi i.vu.acts = true
+
+/-- the invariants the decrease needs, and: no command is held -/
+structure Live (D : Desc) (s : St) : Prop where
+  num : 0 < D.commandsNum
+  wf : Wf D s
+  ub : UbAll D s
+  oob : OobAll D s
+  hold : HoldCpl s
+  nohold : s.state ≠ .hold
+
+theorem muU_congr (D : Desc) {s s' : St} (hu : SameU' s s') (hp : s'.uposition = s.uposition) (hr : s'.rcount = s.rcount) :
+    muU D s' = muU D s := by
+  simp only [muU, hr, locU_congr D hu hp]
+
+/-- **One body of `cat_service`**: the invariants are kept, and either the call reports OK or the
+measure has decreased. -/
+theorem serviceBody_live (D : Desc) (s : St) (i : SvcIn) (t : TermIn i) (l : Live D s) :
+    Live D (serviceBody D s i).1 ∧
+    ((serviceBody D s i).2 = Gen.CAT_STATUS_OK ∨ mu D (serviceBody D s i).1 < mu D s) := by
+  have hu4 : i.hu.ret ≠ 4 := t.hu.2.2
+  have so := serviceBody_oob s i hu4 l.num l.wf l.ub l.oob
+  have su := serviceBody_noUb D s i hu4 l.num l.ub
+  have sh := serviceBody_holdCpl D s i hu4 l.hold
+  -- the unsolicited machine's step
+  have ud := unsolicitedEventsService_dec D s i t.wr t.hu t.ahu t.avu l.oob.u l.wf.ring
+  have kc := unsolicitedEventsService_keepsC D s i hu4
+  have uret := unsolicitedEventsService_ret D s i
+  have us := unsolicitedEventsService_oob s i l.wf l.ub.2 l.oob.u
+  have kr := unsolicitedEventsService_keepsCR D s i
+  have ubu := unsolicitedEventsService_ubStepU D s i l.ub.2
+  simp only [KeepsCH, SameC'] at kc
+  unfold serviceBody at so su sh ⊢
+  simp only at so su sh ⊢
+  generalize hr1 : unsolicitedEventsService D s i = r1 at ud kc uret us kr ubu so su sh
+  obtain ⟨s1, ur⟩ := r1
+  simp only at ud kc uret us kr ubu so su sh ⊢
+  have mc1 : muC D s1 = muC D s := muC_congr D kc.1 kc.2.1
+  have st1 : s1.state = s.state := kc.1.2.2.2.2.2.2.2.1
+  have hold1 : HoldCpl s1 := by unfold HoldCpl at *; rw [kc.2.2, st1]; exact l.hold
+  have nh1 : s1.state ≠ .hold := by rw [st1]; exact l.nohold
+  have reg1 : SameReg D .cmd s s1 := sameReg_cmd_of_take kr.1
+  have oc1 : OobF D s1 .cmd := OobF.reg (by simp only [St.ph]; rw [st1]) kc.1.2.2.2.2.2.2.2.2.2.1 kc.1.2.2.2.2.2.2.2.2.2.2.1 kc.2.1 reg1
+    (fun h => by simp only [St.waiting] at h ⊢; rw [← st1]; exact h) l.oob.c
+  have ui1 : UbInv D s1 := by
+    have a1 := st1
+    have a2 := kc.1.1
+    have a3 := kc.1.2.2.2.2.1
+    have a4 := kc.1.2.2.2.2.2.2.2.2.2.2.2.1
+    have a5 := kc.2.1
+    exact ⟨fun x => by rw [a2]; exact l.ub.1.idx (by rw [← a1, ← a4]; exact x), fun x => by rw [a2]; exact l.ub.1.name (by rw [← a1]; exact x),
+      fun x => by rw [a3]; exact l.ub.1.cmd (by simp only [NeedsCmd] at x ⊢; rw [← a1, ← a4]; exact x),
+      fun x => by rw [a2, a3]; exact l.ub.1.var (by rw [← a1]; exact x), fun x => by rw [a5]; exact l.ub.1.pos (by rw [← a1]; exact x)⟩
+  -- the command machine's step
+  have cd := commandService_dec D s1 i t.rd t.wr t.hc ui1 oc1 hold1 nh1
+  have ku := commandService_keepsU D s1 i
+  have crc := commandService_rc D s1 i s1.rcount t.ahc t.avc rfl
+  have cret := commandService_ret D s1 i
+  have cnh := commandService_nohold D s1 i t.hc hold1 nh1
+  simp only [KeepsU] at ku
+  unfold RC at crc
+  generalize hr2 : commandService D s1 i = r2 at cd ku crc cret cnh so su sh
+  obtain ⟨s2, cr⟩ := r2
+  simp only at cd ku crc cret cnh so su sh ⊢
+  have mu2 : muU D s2 = muU D s1 := muU_congr D ku.1 ku.2 crc
+  refine ⟨⟨l.num, so.2.1, su.2, so.2.2, sh, cnh⟩, ?_⟩
+  unfold mu
+  by_cases hq : s.ustate = .idle ∧ s.rcount = 0
+  · -- nothing queued, nothing in progress on the unsolicited side
+    have e1 : s1 = s := by have := ud.1 hq; simpa using this
+    subst e1
+    by_cases hr : Reading s1.state
+    · left
+      have e2 := cd.1 hr
+      have e3 : s2 = s1.emit (.rd none) ∧ cr = Gen.CAT_STATUS_OK := by
+        have := Prod.mk.inj e2; exact ⟨this.1, this.2⟩
+      rw [e3.2]
+      have : Gen.service_merge ur s2.ustate.code (s2.rcount : Int) = false := by
+        rw [e3.1]
+        simp [uret, hq.1, Gen.service_merge, St.emit, UState.code, hq.2, Gen.is_unsolicited_fsm_busy,
+          Gen.is_unsolicited_buffer_empty, Gen.CAT_STATUS_OK, Gen.CAT_UNSOLICITED_STATE_IDLE]
+      simp [this]
+    · right
+      rcases cd.2 hr with ⟨_, h2, _⟩ | h
+      · rw [hq.1] at h2; exact absurd h2 (by decide)
+      · rw [mu2]; omega
+  · rcases ud.2 hq with ⟨h1, h2, h3⟩ | h
+    · -- the unsolicited machine waits for the command machine, which is sending
+      have e1 : s1 = s := by simpa using h3
+      subst e1
+      have hr : ¬ Reading s1.state := by rw [h2]; decide
+      right
+      rcases cd.2 hr with ⟨g1, _, _⟩ | g
+      · rw [h2] at g1; exact absurd g1 (by decide)
+      · rw [mu2]; omega
+    · right
+      have h' : muU D s1 < muU D s := by simpa using h
+      by_cases hr : Reading s1.state
+      · have e2 := cd.1 hr
+        have e3 : s2 = s1.emit (.rd none) := (Prod.mk.inj e2).1
+        have : muC D s2 = muC D s1 := by rw [e3]; exact muC_congr D (by simp) (by simp)
+        rw [mu2, this, mc1]; omega
+      · rcases cd.2 hr with ⟨_, _, g3⟩ | g
+        · have e3 : s2 = s1 := by simpa using g3
+          rw [mu2, e3, mc1]; omega
+        · rw [mu2]; omega
+
+theorem Live.emit {D : Desc} {s : St} (l : Live D s) (e : Ev) : Live D (s.emit e) := by
+  have st := Still.emit s e
+  have k := st.keep (l.wf.ring.congr (by simp)) l.wf l.oob
+  exact ⟨l.num, k.1, (UbSame.emit s e).inv l.ub.1 l.ub.2, k.2, by simpa [HoldCpl, St.emit] using l.hold, by simpa [St.emit] using l.nohold⟩
+
+theorem mu_emit (D : Desc) (s : St) (e : Ev) : mu D (s.emit e) = mu D s := by
+  unfold mu
+  rw [muC_congr D (s := s) (by simp) (by simp), muU_congr D (s := s) (by simp) (by simp) (by simp)]
+
+/-- **One call of `cat_service`** (mutex calls succeeding): OK, or the measure has decreased. -/
+theorem service_live (D : Desc) (s : St) (i : SvcIn) (t : TermIn i) (l : Live D s) :
+    Live D (service D s i).1 ∧ ((service D s i).2 = Gen.CAT_STATUS_OK ∨ mu D (service D s i).1 < mu D s) := by
+  unfold service withMutex
+  split
+  · simp only [t.lk, t.ul, ne_eq, not_true_eq_false, if_false]
+    have b := serviceBody_live D (s.emit (.lock 0)) i t (l.emit _)
+    refine ⟨b.1.emit _, ?_⟩
+    rcases b.2 with h | h
+    · exact Or.inl h
+    · right; rw [mu_emit, ← mu_emit D s (.lock 0)]; exact h
+  · exact serviceBody_live D s i t l
+
+/-- the state and the results of a run of `cat_service` calls -/
+def runSvc (D : Desc) : St → List SvcIn → St × List Int
+  | s, [] => (s, [])
+  | s, i :: r =>
+    let (s1, ret) := service D { s with log := [] } i
+    let (s2, rs) := runSvc D s1 r
+    (s2, ret :: rs)
+
+theorem Live.clear {D : Desc} {s : St} (l : Live D s) : Live D { s with log := [] } := by
+  have st : Still s ({ s with log := [] } : St) := ⟨⟨by simp, by simp, by simp, by simp⟩, rfl, rfl⟩
+  have k := st.keep (l.wf.ring.congr (by simp)) l.wf l.oob
+  exact ⟨l.num, k.1, (show UbSame s { s with log := [] } from ⟨rfl, rfl, rfl, rfl, rfl, rfl, rfl, rfl, rfl, rfl, rfl⟩).inv l.ub.1 l.ub.2, k.2,
+    by simpa [HoldCpl] using l.hold, by simpa using l.nohold⟩
+
+theorem mu_clear (D : Desc) (s : St) : mu D ({ s with log := [] } : St) = mu D s := by
+  unfold mu
+  rw [muC_congr D (s := s) (by simp) (by simp), muU_congr D (s := s) (by simp) (by simp) (by simp)]
+
+/-- **Liveness**: from any state in which no command is held, a run of `mu D s + 1` (or more) calls in
+which no input arrives, the output accepts and the handlers give final answers contains a call that
+reports OK — at the latest the one with index `mu D s`. -/
+theorem runSvc_live (D : Desc) : ∀ (is : List SvcIn) (s : St), (∀ i ∈ is, TermIn i) → Live D s → mu D s < is.length →
+    ∃ k, k ≤ mu D s ∧ (runSvc D s is).2[k]? = some Gen.CAT_STATUS_OK := by
+  intro is
+  induction is with
+  | nil => intro s _ _ h; simp at h
+  | cons i r ih =>
+    intro s ht l hlen
+    have sv := service_live D { s with log := [] } i (ht i (by simp)) l.clear
+    rw [mu_clear] at sv
+    simp only [runSvc]
+    generalize service D { s with log := [] } i = r1 at sv
+    obtain ⟨s1, ret⟩ := r1
+    simp only at sv ⊢
+    rcases sv.2 with h | h
+    · exact ⟨0, Nat.zero_le _, by simp [h]⟩
+    · have := ih s1 (fun j hj => ht j (by simp [hj])) sv.1 (by simp only [List.length_cons] at hlen; omega)
+      obtain ⟨k, hk, he⟩ := this
+      exact ⟨k + 1, by omega, by simpa using he⟩
+
+/-! ### the measure is bounded by an explicit expression in the sizes -/
+
+theorem stepsLeft_le (K ws pos : Nat) (src : WSrc) : stepsLeft K ws src pos ≤ FL K := by
+  unfold stepsLeft FL
+  have h1 : (3 - ws) * (K + 4) ≤ 3 * (K + 4) := Nat.mul_le_mul_right _ (by omega)
+  cases src <;> simp only <;> omega
+
+theorem listLeft_le (D : Desc) (index : Nat) (t : CmdType) : listLeft D index t ≤ D.commandsNum * D.PER + D.PER + D.ACKF + 1 := by
+  unfold listLeft
+  have h1 : (D.commandsNum - index - 1) * D.PER ≤ D.commandsNum * D.PER := Nat.mul_le_mul_right _ (by omega)
+  have h2 : (6 - t.stage) * (D.FLR + 1) ≤ 6 * (D.FLR + 1) := Nat.mul_le_mul_right _ (by omega)
+  have h3 : 6 * (D.FLR + 1) = D.PER := rfl
+  omega
+
+theorem muC_le (D : Desc) (s : St) : muC D s ≤ D.MUC := by
+  have sl := stepsLeft_le D.cmdCap s.writeState s.position s.writeSrc
+  have ll := listLeft_le D s.index s.cmdType
+  have hfm : D.FMR ≤ D.FMT := by unfold Desc.FMR Desc.FMT Desc.TL Desc.RL; omega
+  have aft : aftC D s ≤ D.FMT + D.commandsNum * D.PER + D.PER + D.ACKF + 2 := by
+    unfold aftC aftOf; split <;> omega
+  unfold muC Desc.MUC
+  split <;> (try omega)
+  all_goals (simp only [Desc.SEARCH0, Desc.FOUND, Desc.RUN, Desc.FMR, Desc.FMT, Desc.TL, Desc.RL, Desc.WL, Desc.LISTALL] at *; omega)
+
+/-- **the measure is bounded**: a constant of the descriptor plus a constant per queued event -/
+theorem mu_le (D : Desc) (s : St) : mu D s ≤ D.MUC + s.rcount * D.EV + FL D.unsCap + D.EV := by
+  have hc := muC_le D s
+  have sl := stepsLeft_le D.unsCap s.uwriteState s.uposition s.uwriteSrc
+  have hl : locU D s ≤ FL D.unsCap + D.EV := by
+    unfold locU Desc.EV
+    have : ∀ a, aftU D a ≤ 1 + D.FMU := by intro a; unfold aftU; split <;> omega
+    have ha := this s.uwriteStateAfter
+    split <;> (try omega)
+    all_goals (unfold Desc.FMU Desc.RLU Desc.FLOKU; omega)
+  unfold mu muU
+  omega
 
 end Cat
